@@ -91,12 +91,26 @@ META['C20'] = dict(
         "TERMINATE blocks every later run (from C06, for all programs). Unwinding at Flush (path [], one scope, client flags kept) is decided by correspondence and the direct oracle on stored ExecPath/Flags/Cache, not yet by theorem."),
   note=_ENG_NOTE + "With WithFirst, blocked requests deliver the stale exit value (documented, outside the checked domain).")
 
+
+_DB_NOTE = ("Trusted: Lean kernel + standard axioms; the hand-written Db model (Vise/Db.lean) whose agreement with db/db.go, db/mem, db/fs (text and binary keys, Dump) and db/postgres (over harness/internal/pgfake) is sampled by identical "
+            "operation sequences; constants (type bits, lock mask, sessioned threshold, separators, fs type offset) regenerated from the source. path.Join cleaning and gdbm not modelled. ")
+META['C10'] = dict(
+  text=("Kernel-checked on the memory map and the filesystem name map: Get after a successful Put at the same coordinates returns the value (mem_get_after_put, fs_get_after_put); a write under a different storage key leaves a read unchanged; "
+        "language read falls back to the default entry; never-written is the distinguished not-found; Put to a locked type is refused with the store unchanged (both backends); the default lock covers the four read-only types; a sealed store refuses every SetLock and sealing locks them all. "
+        "Listing (fs Dump) is modelled and compared but not exact on the tree (known finding). Tie/oracle: 300/6000 op sequences x {mem, fs, fs-binary, pg-fake} against a reference map keyed by exact coordinates."),
+  note=_DB_NOTE)
+META['C11'] = dict(
+  text=("Kernel-checked: the storage key is injective on (type, session, key) for dot-free session ids both empty or both non-empty (storageKey_injective_on, via append_sep_inj), the type byte alone separates data types, hence isolation of reads from writes elsewhere on the memory map "
+        "(mem_isolation; the pg wrapper uses the same keys), and the fs primary names are injective. Outside that domain the property is false: three kernel-evaluated negation witnesses (dot collision, empty-session collision, fs legacy name drops the type byte), "
+        "two open known findings replayed on mem, fs and pg-fake. Oracle: after every write every read is checked against a reference keyed by exact coordinates over an adversarial alphabet (dots, type characters, language-like suffixes, empty session)."),
+  note=_DB_NOTE)
+
 NOT_APPLICABLE = {
 
 
 
- 'C09': 'not claimed yet: under construction', 'C10': 'not claimed yet: under construction',
- 'C11': 'not claimed yet: under construction', 'C12': 'not claimed yet: under construction', 'C13': 'not claimed yet: under construction',
+ 'C09': 'not claimed yet: under construction',
+ 'C12': 'not claimed yet: under construction', 'C13': 'not claimed yet: under construction',
  'C16': 'not claimed yet: under construction',
  'C19': 'not claimed yet: under construction',
 }
